@@ -182,6 +182,41 @@ def r00(ctx, repo, files=None):
                     '%s accepts the argument `%s` and never reads it: the '
                     'caller\'s value is silently dropped (not forwarded to '
                     'the call that implements the method)' % (construct, p))
+        # L6: inside a loop, a name bound in a `try` body and read after the
+        # try is also bound on every handler that falls through (or earlier
+        # in the iteration): otherwise a failing iteration silently reuses
+        # the result of the previous one
+        for l in loops + [w for w in ast.walk(fn)
+                          if isinstance(w, ast.While)]:
+            for k, st in enumerate(l.body):
+                if not isinstance(st, ast.Try):
+                    continue
+                bound = {x.id for b in st.body for x in ast.walk(b)
+                         if isinstance(x, ast.Name)
+                         and isinstance(x.ctx, ast.Store)}
+                earlier = {x.id for b in l.body[:k] for x in ast.walk(b)
+                           if isinstance(x, ast.Name)
+                           and isinstance(x.ctx, ast.Store)}
+                later = {x.id for b in l.body[k + 1:] for x in ast.walk(b)
+                         if isinstance(x, ast.Name)
+                         and isinstance(x.ctx, ast.Load)}
+                for h in st.handlers:
+                    if h.body and isinstance(h.body[-1], (
+                            ast.Raise, ast.Continue, ast.Break, ast.Return)):
+                        continue
+                    hb = {x.id for b in h.body for x in ast.walk(b)
+                          if isinstance(x, ast.Name)
+                          and isinstance(x.ctx, ast.Store)}
+                    for v in sorted((bound & later) - hb - earlier):
+                        bad += 1
+                        ctx.violation(
+                            rule, repo.loc(h, cls, fn.name), construct,
+                            'L6 stale result after except %s' % v,
+                            '`%s` is bound in the try body and read after '
+                            'it, but the `except` path leaves it untouched: '
+                            'when the call fails in iteration k the code '
+                            'after the try uses the value of iteration k-1 '
+                            '(or of before the loop)' % v)
         # L5: a function that takes `axis` hands it to every reduction over
         # its array argument (a reduction without it collapses all axes)
         pnames = [a.arg for a in fn.args.args + fn.args.kwonlyargs]
